@@ -546,7 +546,7 @@ func runC10(a *Args) error {
 	prelude := "From NV Require Import Base C10_Model.\n"
 	w := NewCaseWriter(a, "C10", prelude, "case", "run")
 	quick := a.Tier != "thorough"
-	w.Rule = "the real notation.Verify driven by a scripted registry.Repository and Verifier. Family A (exhaustive, seed-independent): every listing of n signatures over {verifies, fails, unfetchable, fails-without-outcome} x every composition of n into non-empty pages x every limit 1..n+1 (quick: n<=4 over 4 kinds plus n=5 over {verifies, fails, unfetchable} with limits around the decisive position; thorough: n<=5 over 4 kinds, n<=7 over 3 kinds). Family B: empty pages inserted at every position. Family C: nil arguments, non-positive and huge limits, the four SkipVerify behaviours, tag / matching-digest / mismatching-digest / tagless / malformed references (classified by oras ParseReference itself), Resolve and ListSignatures failures, crossed with 8 representative listings. Family D: random listings of up to 14 signatures (mostly failing, so that the limit decides), random pagings with empty pages, random limits. Family E: the real OCI-layout repository of notation-go/registry, signatures pushed with PushSignature, blobs deleted to make them unfetchable, listing order as delivered by the repository. non-trivial = the listing is reached and holds at least 2 signatures, or the case exercises a skip / pin / limit<=0 rule; distinct = distinct (arguments, reference class, paged listing, limit) tuples"
+	w.Rule = "the real notation.Verify driven by a scripted registry.Repository and Verifier. Family A (exhaustive, seed-independent): every listing of n signatures over {verifies, fails, unfetchable, fails-without-outcome} x every composition of n into non-empty pages x every limit 1..n+1 (quick: n<=3 over 4 kinds exhaustively, plus seeded samples of n=4 over 4 kinds and n=5,6 over {verifies, fails, unfetchable} with limits around the decisive position and the end of the listing; thorough: n<=5 over 4 kinds exhaustively, seeded samples of n=6,7 over 3 kinds with all limits). Family B: empty pages inserted at every position. Family C: nil arguments, non-positive and huge limits, the four SkipVerify behaviours, tag / matching-digest / mismatching-digest / tagless / malformed references (classified by oras ParseReference itself), Resolve and ListSignatures failures, crossed with 8 representative listings. Family D: random listings of up to 14 signatures (mostly failing, so that the limit decides), random pagings with empty pages, random limits. Family E: the real OCI-layout repository of notation-go/registry, signatures pushed with PushSignature, blobs deleted to make them unfetchable, listing order as delivered by the repository. non-trivial = the listing is reached and holds at least 2 signatures, or the case exercises a skip / pin / limit<=0 rule; distinct = distinct (arguments, reference class, paged listing, limit) tuples"
 	w.Assumptions = []string{
 		"Repository.ListSignatures hands the callback consecutive pages in listing order and returns the callback's first error (contract of registry.Repository; the scripted repository and the real OCI-layout repository both do)",
 		"reference classes (invalid / no tag or digest / tag / digest) are those reported by oras registry.ParseReference and ValidateReferenceAsDigest, asked by the harness for every reference string",
@@ -636,9 +636,12 @@ func runC10(a *Args) error {
 	}
 
 	// A. exhaustive listings x pagings x limits
-	exh4, exh3 := 4, 5
+	// quick:    n<=3 over 4 kinds exhaustively; n=4 over 4 kinds and n=5,6 over 3 kinds sampled,
+	//           with limits around the decisive position and the end of the listing
+	// thorough: n<=5 over 4 kinds exhaustively; n=6,7 over 3 kinds sampled
+	exh4, maxN := 3, 6
 	if !quick {
-		exh4, exh3 = 5, 7
+		exh4, maxN = 5, 7
 	}
 	// empty listing: no page, one empty page, two empty pages
 	for _, pages := range [][][]int{{}, {{}}, {{}, {}}} {
@@ -646,10 +649,19 @@ func runC10(a *Args) error {
 			emit(listingCase("A", pages, max))
 		}
 	}
-	for n := 1; n <= exh3; n++ {
+	for n := 1; n <= maxN; n++ {
 		base := 4
-		if n > exh4 {
+		if n > exh4 && !(quick && n == 4) {
 			base = 3
+		}
+		// sampling rate (1 in keep) of the (listing, paging, limit) cells beyond the exhaustive part
+		keep := 1
+		if n > exh4 {
+			if quick {
+				keep = map[int]int{4: 4, 5: 24, 6: 160}[n]
+			} else {
+				keep = map[int]int{6: 4, 7: 40}[n]
+			}
 		}
 		comps := compositions(n)
 		listings(n, base, func(l []int) {
@@ -663,13 +675,15 @@ func runC10(a *Args) error {
 			}
 			for _, sizes := range comps {
 				for max := 1; max <= n+1; max++ {
-					if quick && n > exh4 {
-						// limits around the decisive position and around the page ends only
-						near := max == dec || max == dec+1 || max == dec+2 || max == n || max == n+1
-						if !near {
-							continue
+					if n > exh4 {
+						if quick {
+							// limits around the decisive position and around the end only
+							near := max == dec || max == dec+1 || max == dec+2 || max == n || max == n+1
+							if !near {
+								continue
+							}
 						}
-						if rng.Chance(1, 2) {
+						if !rng.Chance(1, keep) {
 							continue
 						}
 					}
@@ -679,7 +693,7 @@ func runC10(a *Args) error {
 		})
 	}
 	w.Exhaustive = false
-	w.Set("exhaustive_part", fmt.Sprintf("family A: all listings of n<=%d signatures over 4 kinds x all compositions into non-empty pages x all limits 1..n+1 (seed-independent); sampled beyond", exh4))
+	w.Set("exhaustive_part", fmt.Sprintf("family A: all listings of n<=%d signatures over 4 kinds x all compositions into non-empty pages x all limits 1..n+1 (seed-independent); sampled beyond, up to n=%d", exh4, maxN))
 
 	// B. empty pages inserted
 	bN := 3
@@ -759,9 +773,9 @@ func runC10(a *Args) error {
 	}
 
 	// D. random longer listings
-	nD := 400
+	nD := 300
 	if !quick {
-		nD = 30000
+		nD = 10000
 	}
 	for k := 0; k < nD; k++ {
 		n := 1 + rng.Intn(14)
@@ -798,9 +812,9 @@ func runC10(a *Args) error {
 	}
 
 	// E. the real OCI-layout repository
-	nE := 60
+	nE := 40
 	if !quick {
-		nE = 1500
+		nE = 600
 	}
 	for k := 0; k < nE; k++ {
 		n := rng.Intn(6)
